@@ -233,13 +233,21 @@ func (h *hostListener) close() { h.reset(); h.ln.Close() }
 
 // closedPort returns a loopback address on which nothing listens.
 func closedPort() string {
-	ln, err := net.Listen("tcp4", "127.0.0.1:0")
+	// bound but not listening: connections are refused, and the port stays reserved for the life of
+	// the process (a merely freed port can be handed out as the local port of the very connection
+	// that is supposed to fail, which then connects to itself)
+	fd, err := syscall.Socket(syscall.AF_INET, syscall.SOCK_STREAM, 0)
 	if err != nil {
 		panic(err)
 	}
-	a := ln.Addr().String()
-	ln.Close()
-	return a
+	if err := syscall.Bind(fd, &syscall.SockaddrInet4{Port: 0, Addr: [4]byte{127, 0, 0, 1}}); err != nil {
+		panic(err)
+	}
+	sa, err := syscall.Getsockname(fd)
+	if err != nil {
+		panic(err)
+	}
+	return fmt.Sprintf("127.0.0.1:%d", sa.(*syscall.SockaddrInet4).Port)
 }
 
 func splitHostPort(addr string) (string, int) {
@@ -253,10 +261,10 @@ func splitHostPort(addr string) (string, int) {
 // gateway configuration shared by model and implementation
 
 type gwCfg struct {
-	token, sc            bool
-	ccheck, ncheck, hcheck bool
-	redir                [7]bool // clipboard port drive printer pnp disableAll enableAll
-	idle                 int
+	token, sc                     bool
+	ccheck, ncheck, hcheck        bool
+	redir                         [7]bool // clipboard port drive printer pnp disableAll enableAll
+	idle                          int
 	cookies, clients, hosts, dial []string
 }
 
